@@ -149,6 +149,9 @@ def _record(text):
 def _compare(ctx, P, text, mode):
     G = generic_for(P)
     site = P.cutter.site
+    edited_from = None
+    if mode == "edited":
+        edited_from, text = text
     if mode == "extrasite":
         ctx.count("c05_compared_with_third_site")
     elif len(occurrences(text, site)) != 1 or len(occurrences(text, rc(site))) != 1:
@@ -156,7 +159,21 @@ def _compare(ctx, P, text, mode):
         return
     ctx.count("evaluations")
     g = G(_record(text))
-    p = P(_record(text))
+    if edited_from is None:
+        p = P(_record(text))
+    else:
+        # an editable record (MutableSeq) that was a member when the part class first looked at it, changed in place since
+        # (one letter of an overhang), and wrapped again: the answer is about the text the record holds now
+        from Bio.Seq import MutableSeq
+        from moclo.record import CircularRecord
+        rec = CircularRecord(MutableSeq(edited_from), "r")
+        P(rec).is_valid()
+        for i, (x, y) in enumerate(zip(edited_from, text)):
+            if x != y:
+                rec.seq[i] = y
+        p = P(rec)
+        p.is_valid()            # asked before anything else is searched
+        ctx.count("c05_compared_after_edit_in_place")
     gv = g.is_valid()
     exp = bool(gv and sigmatch(P.signature[0], str(g.overhang_start())) and sigmatch(P.signature[1], str(g.overhang_end())))
     got = p.is_valid()
@@ -202,6 +219,18 @@ def _texts(rng, P, siblings, count):
             i = (start + rng.randrange(k)) % len(s)
             s = s[:i] + rng.choice([x for x in "ACGT" if x != s[i]]) + s[i + 1:]
         yield mode, rot_left(s, rng.randrange(len(s)))
+    re_ = gen.rng_for("c05-edited", P.__name__, str(P.signature), count)
+    for j in range(max(1, count // 6)):
+        s = gen.instance(re_, P.structure(), run_max=25) + gen.rand_dna(re_, re_.randint(2, 20))
+        geom = refmodel.geometry(P.cutter)
+        fr = refmodel.module_fragment(s.upper(), geom)
+        if fr is None:
+            continue
+        start = fr[0] if re_.random() < 0.5 else (fr[0] + len(fr[1])) % len(s)
+        i = (start + re_.randrange(geom[2])) % len(s)
+        t = s[:i] + re_.choice([x for x in "ACGT" if x != s[i].upper()]) + s[i + 1:]
+        o = re_.randrange(len(s))
+        yield "edited", (rot_left(s, o), rot_left(t, o))
     # members spoilt by a further copy of the site that *opens* the structure, placed inside it: the signature-free class
     # refuses such a plasmid (illegal site) and so must the part, every time it is asked.  A copy of the opening site only
     # adds possible match starts, never ends, so the leftmost match of the part is still the leftmost match of the generic class
